@@ -85,6 +85,13 @@ CLAIMED = {
          "TLC checks ReturnedConfigurationIsValidated, DefaultsFilledIn (2s, 5, 15, 5s iff heartbeats, info, TC 3), CommentsNeverAlterValues (same outcome and same configuration as the comment-free text) and ShippedSamplesLoad; a panic of the loader is an event nothing consumes.",
          "Pure-function property: TLC is evaluator of a relational post-condition over generated cases (weak fit, DESIGN 7); parse facts (duration / CIDR / IP) are computed by the worker with the standard library. " + TRUST,
          "5 C18"),
+ "C08": ("TLA+ R-spec Pfcp!PdrFilter (flow-description AST -> filter, orientation by PDR direction, named PortWorkaround, PFD table semantics): TLC judges the pdrLookup entries the real agent programs for every grammar form",
+         "Every form of the IPFilterRule grammar (1 296 abstract forms x uplink and downlink PDR, seeded concrete prefixes / lengths 0..32 / boundary ports; 10 embeddings per form in the thorough tier) is sent inline as SDF filter; "
+         "structurally malformed descriptions built by construction (unknown action / direction, unparsable address or port, inverted range, missing from/to part) must be refused or ignored (UE address only); PFD Management sequences "
+         "(whole-table replacement, rejected request keeps the table, unparsable entries, unknown application ids) are followed by PDRs naming application ids. TLC checks FilterMeansWhatItSays on the recorded entries, "
+         "PfdTableReplacedOrKept and ProvisionedApplicationUsable (a well-formed establishment naming a provisioned application is not refused).",
+         "The reading of the UE-side endpoint is the as-written one (an explicit prefix or 'any' on the UE side replaces the UE address match, DESIGN A.1); UP4 applications entries pending with C04. " + TRUST,
+         "5 C08"),
 }
 
 def hooks_commits():
